@@ -37,6 +37,7 @@ func genC19n(rng *rand.Rand, tier string) *core.Plan {
 	p.Cfg["ioerr_pm"] = []int{0, 150, 400, 1000}[rng.Intn(4)] // per table file opened while a request is processed
 	p.Cfg["ioerr_max"] = 1 + rng.Intn(3)
 	p.Cfg["maporder"] = rng.Intn(2)
+	core.GenZone(p, rng.Intn)         // the node's local time zone
 	p.Cfg["realmgr"] = rng.Intn(2)    // responses are received by lindb's own task manager on a real worker pool
 	p.Cfg["mgrworkers"] = rng.Intn(3) // 1-3 workers
 	p.Ops = append(p.Ops, core.Op{K: "write", A: int64(2 + rng.Intn(10)), S: fmt.Sprint(rng.Intn(1 << 30))})
